@@ -1,11 +1,119 @@
-/- Hand-written executable model (tie B): Krige.  Core Lean only — no Mathlib import in this file. -/
+/- Hand-written executable model (tie B): Krige — assembly of the kriging system, right-hand sides,
+   chunk loop, variance clipping (krige/base.py).  The summation kernel itself is NOT modelled by hand:
+   it is the generated translation of krigesum.pyx (tie A).  Core Lean only. -/
 import GSV.Proto
+import GSV.Gen.Krigesum
 open Lean GSV GSV.Proto GSV.Transc
 namespace GSV.Model.Krige
 
-/-- line-protocol operations of this model; `none` = not one of mine -/
+variable {α : Type} [Arith α] [Transc α] [DecidableLT α] [DecidableLE α]
+
+/-- layout of a kriging system -/
+structure Layout where
+  n : Nat            -- conditioning points
+  unb : Bool         -- unbiasedness row/column
+  nf : Nat           -- functional drifts
+  ne : Nat           -- external drifts
+deriving Repr
+
+def Layout.u (L : Layout) : Nat := if L.unb then 1 else 0
+def Layout.size (L : Layout) : Nat := L.n + L.u + L.nf + L.ne
+def Layout.fStart (L : Layout) : Nat := L.size - (L.nf + L.ne)      -- `-drift_no + i`
+def Layout.eStart (L : Layout) : Nat := L.size - L.ne               -- `ext_size`
+
+/-- the border entry in row `r ≥ n` (equivalently column) for conditioning point `c < n` -/
+def border (L : Layout) (F E : Nat → Nat → α) (r c : Nat) : α :=
+  if L.unb ∧ r = L.n then ((1:Nat):α)
+  else if L.fStart ≤ r ∧ r < L.eStart then F (r - L.fStart) c
+  else if L.eStart ≤ r ∧ r < L.size then E (r - L.eStart) c
+  else ((0:Nat):α)
+
+/-- `_get_krige_mat` before inversion: covariance block with the measurement error on the diagonal,
+    unbiasedness / drift borders (symmetric), zero corner -/
+def assembleK (L : Layout) (C : Nat → Nat → α) (err : Nat → α) (F E : Nat → Nat → α) : Nat → Nat → α :=
+  fun i j =>
+    if i < L.n ∧ j < L.n then (if i = j then C i j + err i else C i j)
+    else if L.n ≤ i ∧ L.n ≤ j then ((0:Nat):α)
+    else if L.n ≤ i then border L F E i j
+    else border L F E j i
+
+/-- `_get_krige_vecs`: column `p` of the right-hand side for a target point.
+    `c i p` = covariance (or nugget-aware covariance) between conditioning point `i` and target `p`,
+    `f`, `e` = functional / external drift values at the targets -/
+def assembleRHS (L : Layout) (onlyMean : Bool) (c : Nat → Nat → α) (f e : Nat → Nat → α) : Nat → Nat → α :=
+  fun i p =>
+    if i < L.n then (if onlyMean then ((0:Nat):α) else c i p)
+    else if L.unb ∧ i = L.n then ((1:Nat):α)
+    else if L.fStart ≤ i ∧ i < L.eStart then f (i - L.fStart) p
+    else if L.eStart ≤ i ∧ i < L.size then e (i - L.eStart) p
+    else ((0:Nat):α)
+
+/-- `_krige_cond`: (normalised, detrended) data minus mean, zero padded -/
+def krigeCond (L : Layout) (valn mean : Nat → α) : Nat → α :=
+  fun i => if i < L.n then valn i - mean i else ((0:Nat):α)
+
+/-- `np.maximum(sill - krige_var, 0)` -/
+def clipVar (sill q : α) : α := if sill - q < ((0:Nat):α) then ((0:Nat):α) else sill - q
+
+/-- chunk containing target `p` for `chunk_size = cs` (`cs ≥ 1`): start index -/
+def chunkLo (cs p : Nat) : Nat := (p / cs) * cs
+def chunkHi (cs pnt p : Nat) : Nat := min pnt ((p / cs + 1) * cs)
+
+/-- the chunk loop of `Krige.__call__` (with variance): for each target `p`, the kernel is run on the
+    chunk that contains `p`, whose right-hand side is the slice `[lo, hi)` of the full one -/
+def krigeCall (sched : Sched) (L : Layout) (M : Nat → Nat → α) (rhs : Nat → Nat → α) (cond : Nat → α)
+    (sill : α) (pnt cs : Nat) : (Nat → α) × (Nat → α) :=
+  let cell := fun p =>
+    let lo := chunkLo cs p
+    let hi := chunkHi cs pnt p
+    let r := Krigesum.calc_field_krige_and_variance sched M L.size L.size (fun i q => rhs i (lo + q)) L.size (hi - lo) cond L.size
+    (r.1 (p - lo), r.2 (p - lo))
+  (fun p => (cell p).1, fun p => clipVar sill (cell p).2)
+
+/-- field-only path (`return_var=False`) -/
+def krigeCallField (sched : Sched) (L : Layout) (M : Nat → Nat → α) (rhs : Nat → Nat → α) (cond : Nat → α)
+    (pnt cs : Nat) : Nat → α :=
+  fun p =>
+    let lo := chunkLo cs p
+    let hi := chunkHi cs pnt p
+    Krigesum.calc_field_krige sched M L.size L.size (fun i q => rhs i (lo + q)) L.size (hi - lo) cond L.size (p - lo)
+
+/-- `get_mean` for unbiased kriging: `cond · M · (0,…,0,1,0…)` -/
+def getMeanUnb (L : Layout) (M : Nat → Nat → α) (cond : Nat → α) : α :=
+  forRange 0 L.size ((0:Nat):α) fun i acc => acc + cond i * M i L.n
+
+/-! ### driver ops (Float) -/
+
+def getLayout (j : Json) : Except String Layout := do
+  return { n := ← getNat j "n", unb := ← getBool j "unb", nf := ← getNat j "nf", ne := ← getNat j "ne" }
+
 def ops (op : String) (j : Json) : Option (Except String Json) :=
   match op with
+  | "krige_assemble" => some (do
+      let L ← getLayout j
+      let C ← getFloats j "C"; let err ← getFloats j "err"; let F ← getFloats j "F"; let E ← getFloats j "E"
+      let K := assembleK L (ofList2 C L.n) (ofList err) (ofList2 F L.n) (ofList2 E L.n)
+      return fl2 (tab2 K L.size L.size))
+  | "krige_rhs" => some (do
+      let L ← getLayout j
+      let m ← getNat j "m"; let om ← getBool j "only_mean"
+      let c ← getFloats j "c"; let f ← getFloats j "f"; let e ← getFloats j "e"
+      let R := assembleRHS L om (ofList2 c m) (ofList2 f m) (ofList2 e m)
+      return fl2 (tab2 R L.size m))
+  | "krige_call" => some (do
+      let L ← getLayout j
+      let pnt ← getNat j "pnt"; let cs ← getNat j "cs"
+      let M ← getFloats j "M"; let rhs ← getFloats j "rhs"; let valn ← getFloats j "valn"; let mean ← getFloats j "mean"
+      let sill ← getFloat j "sill"
+      let cond := krigeCond L (ofList valn) (ofList mean)
+      let (f, v) := krigeCall (id : Sched) L (ofList2 M L.size) (ofList2 rhs pnt) cond sill pnt cs
+      let f2 := krigeCallField (id : Sched) L (ofList2 M L.size) (ofList2 rhs pnt) cond pnt cs
+      return Json.arr #[fl (tab f pnt), fl (tab v pnt), fl (tab f2 pnt), fl (tab cond L.size)])
+  | "krige_mean" => some (do
+      let L ← getLayout j
+      let M ← getFloats j "M"; let valn ← getFloats j "valn"; let mean ← getFloats j "mean"
+      let cond := krigeCond L (ofList valn) (ofList mean)
+      return fbits (getMeanUnb L (ofList2 M L.size) cond))
   | _ => none
 
 end GSV.Model.Krige
